@@ -10,15 +10,15 @@ import random
 
 PROPERTY = "C19"
 LEVEL = "exploration"
-RULE = ("all directories of depth 0-4 over two names (31) x all resource paths of <= N components over {a, b, ., .., x.y} "
-        "(exhaustive; N=4 quick, 6 thorough) through ResourceQuerySegment.to_absolute, plus seeded random queries with 1-3 "
+RULE = ("all directories of depth 0-4 over two names (31) x all resource paths of <= N components over {a, b, ., .., x.y, ..data, ...} "
+        "(exhaustive; N=4 quick, 5 thorough) through ResourceQuerySegment.to_absolute, plus seeded random queries with 1-3 "
         "resource segments of different names, headers with parameters and trailing transformations through "
         "Query.to_absolute with resource_segment_name in {'', other, None}. Non-trivial = the path contains '.' or '..'; "
         "distinct = distinct (directory, query, segment-name) triples.")
 ASSUMPTIONS = ["directory argument is an absolute key without '.'/'..' (as documented)"]
 SHARD_TIMEOUT = {"quick": 600, "thorough": 3600}
 
-NAMES = ["a", "b", ".", "..", "x.y"]
+NAMES = ["a", "b", ".", "..", "x.y", "..data", "..."]
 
 
 class Reject(Exception):
@@ -53,7 +53,7 @@ def dirs():
 
 
 def shards(tier, seed):
-    N = 4 if tier == "quick" else 6
+    N = 4 if tier == "quick" else 5
     m = 12 if tier == "quick" else 32
     out = [{"kind": "paths", "N": N, "part": k, "parts": m} for k in range(m)]
     m2 = 4 if tier == "quick" else 16
@@ -298,5 +298,5 @@ def finalize(m, tier, seed):
         if not m["counters"].get(k):
             inc.append("monitor/coverage class %s empty" % k)
     return {"exhaustive": True,
-            "exhaustive_subspaces": ["31 directories x all paths of <= %d components over %r" % (4 if tier == "quick" else 6, NAMES)],
+            "exhaustive_subspaces": ["31 directories x all paths of <= %d components over %r" % (4 if tier == "quick" else 5, NAMES)],
             "inconclusive": inc}
